@@ -136,4 +136,58 @@ CATALOGUE = [
     M('set-prev-calls-next', ['C17'], [(ST, "        self.tree.prev(t).map(|kv| kv.0)", "        self.tree.next(t).map(|kv| kv.0)")], {'C17': 'M-mirror'}),
     M('successor-on-equal', ['C17'], [(TR, "                Ordering::Less => {\n                    successor = Some((&node.key, &node.value));\n                    match node.left {\n                        Some(ref left) => node = left,\n                        None => break,\n                    }\n                }\n                Ordering::Equal | Ordering::Greater => match node.right {", "                Ordering::Less | Ordering::Equal => {\n                    successor = Some((&node.key, &node.value));\n                    match node.left {\n                        Some(ref left) => node = left,\n                        None => break,\n                    }\n                }\n                Ordering::Greater => match node.right {")], {'C17': 'M-direction'}),
     M('remaining-not-decremented', ['C17'], [(TR, "                    self.cur = cur.pop_left();\n                    // left and right fields are both None\n                    let node = *cur;\n                    let Node { key, value, .. } = node;\n                    self.remaining -= 1;", "                    self.cur = cur.pop_left();\n                    // left and right fields are both None\n                    let node = *cur;\n                    let Node { key, value, .. } = node;")], {'C17': ['M-size', 'M-mirror']}),
+    # ---- more behaviour-preserving refactors (false-alarm probes)
+    B('prop-match-on-tuple', ['C14', 'C01'], [(CF, """        if event.is_subject == prev.is_subject {
+            if prev.is_vertical() {
+                // The region right of a vertical edge is its "below" side: nothing is crossed yet.
+                event.set_in_out(prev.is_in_out(), prev.is_other_in_out());
+            } else {
+                event.set_in_out(!prev.is_in_out(), prev.is_other_in_out());
+            }
+        } else if prev.is_vertical() {
+            event.set_in_out(!prev.is_other_in_out(), !prev.is_in_out());
+        } else {
+            event.set_in_out(!prev.is_other_in_out(), prev.is_in_out());
+        }""", """        match (event.is_subject == prev.is_subject, prev.is_vertical()) {
+            (true, true) => event.set_in_out(prev.is_in_out(), prev.is_other_in_out()),
+            (true, false) => event.set_in_out(!prev.is_in_out(), prev.is_other_in_out()),
+            (false, true) => event.set_in_out(!prev.is_other_in_out(), !prev.is_in_out()),
+            (false, false) => event.set_in_out(!prev.is_other_in_out(), prev.is_in_out()),
+        }""")]),
+    B('shortcut-demorgan', ['C09', 'C06'], [(MOD, "    if sbbox.min.x > cbbox.max.x || cbbox.min.x > sbbox.max.x || sbbox.min.y > cbbox.max.y || cbbox.min.y > sbbox.max.y\n    {", "    let overlap_x = sbbox.min.x <= cbbox.max.x && cbbox.min.x <= sbbox.max.x;\n    let overlap_y = sbbox.min.y <= cbbox.max.y && cbbox.min.y <= sbbox.max.y;\n    if !(overlap_x && overlap_y) {")]),
+    B('initial-box-helper', ['C06', 'C09'], [(MOD, """    let mut sbbox = BoundingBox {
+        min: Coord {
+            x: F::infinity(),
+            y: F::infinity(),
+        },
+        max: Coord {
+            x: F::neg_infinity(),
+            y: F::neg_infinity(),
+        },
+    };
+    let mut cbbox = sbbox;""", """    fn empty_box<T: Float>() -> BoundingBox<T> {
+        let (hi, lo) = (T::infinity(), T::neg_infinity());
+        BoundingBox {
+            min: Coord { x: hi, y: hi },
+            max: Coord { x: lo, y: lo },
+        }
+    }
+    let mut sbbox = empty_box::<F>();
+    let mut cbbox = empty_box::<F>();""")]),
+    B('point-arm-early-return', ['C16', 'C04', 'C13'], [(PI, """            if se1.point != inter && other1.point != inter {
+                divide_segment(se1, inter, queue);
+            }""", """            let touches1 = se1.point == inter || other1.point == inter;
+            if !touches1 {
+                divide_segment(se1, inter, queue);
+            }""")]),
+    B('parent-ladder-to-match', ['C02', 'C03'], [(CE, "        if let Some(prev_in_result) = event.get_prev_in_result() {", "        let lower = event.get_prev_in_result();\n        if let Some(prev_in_result) = lower {")]),
+    B('contour-get-with-fallback', ['C03', 'C02'], [(CE, "                    contours[lower_contour_id as usize].depth\n                };", "                    contours.get(lower_contour_id as usize).map(|c| c.depth).unwrap_or(0)\n                };")]),
+    B('teardown-while-let-stack', ['C18', 'C03', 'C17'], [(TR, "    let mut pending = Vec::new();\n    pending.extend(root);\n    while let Some(mut node) = pending.pop() {\n        pending.extend(node.pop_left());\n        pending.extend(node.pop_right());\n    }", "    let mut pending = Vec::new();\n    if let Some(r) = root {\n        pending.push(r);\n    }\n    while let Some(mut node) = pending.pop() {\n        if let Some(l) = node.pop_left() {\n            pending.push(l);\n        }\n        if let Some(r) = node.pop_right() {\n            pending.push(r);\n        }\n    }")]),
+    B('cmp-tuple-first', ['C15'], [(SE, "        if p1.x > p2.x {\n            return Ordering::Less;\n        }\n        if p1.x < p2.x {\n            return Ordering::Greater;\n        }", "        if p1.x != p2.x {\n            return if p1.x > p2.x { Ordering::Less } else { Ordering::Greater };\n        }")]),
+    B('rename-locals-compute_fields', ['C14', 'C01', 'C02'], [(CF, "        } else if let Some(prev_of_prev) = prev.get_prev_in_result() {\n            event.set_prev_in_result(&prev_of_prev);", "        } else if let Some(below) = prev.get_prev_in_result() {\n            event.set_prev_in_result(&below);")]),
+    B('subdivide-clone-neighbours-early', ['C13', 'C14'], [(SD, "            let maybe_prev = sweep_line.prev(&event);\n            let maybe_next = sweep_line.next(&event);\n\n            compute_fields(&event, maybe_prev, operation);", "            let maybe_next = sweep_line.next(&event);\n            let maybe_prev = sweep_line.prev(&event);\n\n            compute_fields(&event, maybe_prev, operation);")]),
+    B('fill-queue-helper-closure', ['C07', 'C09', 'C13', 'C05'], [(FQ, "    for polygon in subject {\n        contour_id += 1;\n        process_polygon(polygon.exterior(), true, contour_id, &mut event_queue, sbbox, true);", "    for polygon in subject.iter() {\n        contour_id += 1;\n        let outer = polygon.exterior();\n        process_polygon(outer, true, contour_id, &mut event_queue, sbbox, true);")]),
+    B('size-saturating', ['C17'], [(TR, "    pub fn is_empty(&self) -> bool {\n        self.len() == 0\n    }\n\n    pub fn clear(&mut self) {", "    pub fn is_empty(&self) -> bool {\n        self.size == 0\n    }\n\n    pub fn clear(&mut self) {")]),
+    B('divide-bind-point-first', ['C13', 'C16', 'C04'], [(DS, "    let r = SweepEvent::new_rc(\n        se_l.contour_id,\n        inter,", "    let at = inter;\n    let r = SweepEvent::new_rc(\n        se_l.contour_id,\n        at,")]),
+    B('in_result-early-noncontributing', ['C01', 'C14', 'C05', 'C06'], [(CF, "    match event.get_edge_type() {\n        EdgeType::Normal => match operation {", "    let edge_type = event.get_edge_type();\n    if edge_type == EdgeType::NonContributing {\n        return false;\n    }\n    match edge_type {\n        EdgeType::Normal => match operation {")]),
 ]
